@@ -35,6 +35,7 @@ def run(ctx) -> None:
         ctx.guard("C11.lvh-note", lvh_note_once, dev)
     ctx.guard("C11.slice-zero", slice_zero)
     ctx.guard("C11.same-labware", identity_eq_rule, "C11.same-labware")
+    ctx.guard("C11.snapshot", history_readonly)
     ctx.guard("C11.report", report)
     ctx.guard("C11.distribute", distribute)
     ctx.guard("C11.per-call", per_call_ops)
@@ -100,6 +101,73 @@ def _is_snapshot(term: ast.AST, selfn: str) -> Optional[bool]:
         if attr_of_name(base, selfn, "_volumes"):
             return False if isinstance(term.slice, ast.Slice) else None
     return None
+
+
+def history_readonly(ctx) -> None:
+    """Nothing that *reads* the history writes into an entry: a name bound to an element of the history (loop variable over
+    `self.history` / `self._history`, an indexed entry) is never the target of an in-place operation - `out=<entry>`,
+    `entry += ..`, `entry[..] = ..`, `entry.fill(..)` and the like."""
+    rule = "C11.snapshot"
+    lab = ctx.prog.require_class("Labware", rule)
+    INPLACE = {"fill", "sort", "resize", "put", "itemset", "partition", "setfield", "byteswap"}
+    n = 0
+    for cls in [lab] + list(ctx.prog.subclasses(lab)):
+        for m in cls.methods.values():
+            if not m.params:
+                continue
+            selfn = m.params[0]
+            ctx.rep.touch(m)
+
+            def is_hist(e):
+                return attr_of_name(e, selfn, "_history") or attr_of_name(e, selfn, "history")
+
+            entries = set()
+            for sub in own_walk(m.node):
+                it = tgt = None
+                if isinstance(sub, ast.For):
+                    it, tgt = sub.iter, sub.target
+                elif isinstance(sub, ast.comprehension):
+                    it, tgt = sub.iter, sub.target
+                elif isinstance(sub, ast.Assign) and len(sub.targets) == 1 and isinstance(sub.value, ast.Subscript) and is_hist(sub.value.value) and not isinstance(sub.value.slice, ast.Slice):
+                    entries |= {x.id for x in ast.walk(sub.targets[0]) if isinstance(x, ast.Name)}
+                if it is None:
+                    continue
+                srcs = [it] + (list(it.args) if isinstance(it, ast.Call) and call_fname(it) in ("zip", "enumerate", "reversed", "list") else [])
+                for a_ in list(srcs):
+                    if isinstance(a_, ast.Call) and call_fname(a_) in ("zip", "enumerate", "reversed", "list"):
+                        srcs += list(a_.args)
+                if any(is_hist(x) or (isinstance(x, ast.Subscript) and is_hist(x.value)) for x in srcs):
+                    entries |= {x.id for x in ast.walk(tgt) if isinstance(x, ast.Name)}
+            if not entries:
+                continue
+            n += 1
+            hits = []
+            for sub in own_walk(m.node):
+                if isinstance(sub, ast.Call):
+                    for k in sub.keywords:
+                        if k.arg == "out" and any(isinstance(x, ast.Name) and x.id in entries for x in ast.walk(k.value)):
+                            hits.append((sub, f"`{stmt_key(sub)[:60]}` writes its result into the entry (out=)"))
+                    if isinstance(sub.func, ast.Attribute) and sub.func.attr in INPLACE and isinstance(sub.func.value, ast.Name) and sub.func.value.id in entries:
+                        hits.append((sub, f"`{stmt_key(sub)[:60]}` changes the entry in place"))
+                if isinstance(sub, ast.AugAssign):
+                    root = sub.target
+                    while isinstance(root, ast.Subscript):
+                        root = root.value
+                    if isinstance(root, ast.Name) and root.id in entries:
+                        hits.append((sub, f"`{stmt_key(sub)[:60]}` is an in-place operation on the entry"))
+                if isinstance(sub, (ast.Assign, ast.AnnAssign)):
+                    for t in (sub.targets if isinstance(sub, ast.Assign) else [sub.target]):
+                        if isinstance(t, ast.Subscript):
+                            root = t.value
+                            while isinstance(root, ast.Subscript):
+                                root = root.value
+                            if isinstance(root, ast.Name) and root.id in entries:
+                                hits.append((sub, f"`{stmt_key(sub)[:60]}` stores into the entry"))
+            for sub, why in hits:
+                ctx.rep.refuted(rule, f"{m.qualname}/entry-write", f"{why}: reading the history ({m.name}) alters earlier entries, which are supposed to be snapshots", where=m.where(sub))
+            if not hits:
+                ctx.rep.holds(rule, f"{m.qualname}/entries-read-only", f"{m.name} only reads the history entries it iterates ({sorted(entries)})", where=m.where())
+    ctx.rep.floor(rule, "methods that iterate history entries", n, 1)
 
 
 def _param_snapshot(ctx, f, p: str):
